@@ -1,4 +1,4 @@
-//@ unit u11_lww props C03
+//@ unit u11_lww props C03 also C11
 // Unit U11: the last-writer-wins rule applied to a row received during synchronisation (src/database/node.rs
 // Node::filter_existing): which of two versions of a row is kept.  Convergence of replicas is a whole-history property and
 // is NOT decided; what is decided here is the per-row rule it rests on: the incoming version replaces the stored one exactly
@@ -101,5 +101,41 @@ pub proof fn L_lww_strict_total_order(a: NodeIdentifier, b: NodeIdentifier, c: N
     axiom_sig_le_total_order(a.signature@, c.signature@, b.signature@);
     axiom_sig_le_total_order(c.signature@, b.signature@, a.signature@);
 }
+// ================================================================= rows not stored locally: a deleted version is not requested again (C11)
+pub mod rusqlite { pub struct CachedStatement { x: u8 } }
+/// the most recent modification date among the deletion records this peer stores for the row (None: never deleted here)
+pub uninterp spec fn spec_deleted_mdate(id: Uid) -> Option<i64>;
+impl Node {
+    /// SELECT max(mdate) FROM _node_deletion_log WHERE id = ?  (SQL: ASSUMED to answer the stored deletion records)
+    #[verifier::external_body]
+    pub fn deleted_version_mdate(id: &Uid, deleted_stmt: &mut rusqlite::CachedStatement) -> (r: Result<Option<i64>>)
+        ensures r is Ok ==> r->Ok_0 == spec_deleted_mdate(*id)
+    { unimplemented!() }
+}
+/// the property's rule: a version modified at `mdate` is the deleted version or an older one
+pub open spec fn deleted_or_older(deleted: Option<i64>, mdate: i64) -> bool { deleted is Some && mdate <= deleted->Some_0 }
+
+//@ extract src/database/node.rs :: impl Node / fn is_deleted_version
+//@ result r
+//@ spec
+        ensures
+            // [deleted_version_test_is_the_rule]{C11} the test applied to an incoming version is exactly: this peer holds a deletion record of the row for this version or a newer one
+            r == deleted_or_older(deleted_mdate, mdate),
+//@ end
+
+//@ extract src/database/node.rs :: impl Node / fn filter_existing as Node::not_stored_locally
+//@ lift "for node_id in node_ids.drain() {" :: fn not_stored_locally(node_id: NodeIdentifier, deleted_stmt0: rusqlite::CachedStatement, result: &mut Vec<NodeToInsert>) -> Result<()> tail "Ok(())"
+//@ result r
+//@ insert body-start
+            let mut deleted_stmt = deleted_stmt0;   // E9: the prepared statement of the enclosing function
+//@ spec
+        ensures
+            // [deleted_version_never_requested_again]{C11} an incoming version of a row that is not stored here is requested from the peer unless this peer has deleted that version or a newer one: then nothing is requested and the row cannot come back from a peer that has not seen the deletion
+            r is Ok && deleted_or_older(spec_deleted_mdate(node_id.id), node_id.mdate) ==> final(result)@ == old(result)@,
+            // [unknown_row_requested]{C11,C03} every other incoming row that is not stored here is requested, once
+            r is Ok && !deleted_or_older(spec_deleted_mdate(node_id.id), node_id.mdate) ==> final(result)@.len() == old(result)@.len() + 1
+                && final(result)@.subrange(0, old(result)@.len() as int) == old(result)@ && final(result)@.last().id == node_id.id && final(result)@.last().old_room_id is None,
+//@ end
+
 } // verus!
 fn main() {}
